@@ -1166,6 +1166,33 @@ def r_convert_once(model, rep):
     rep.ob("R-CONVERT-ONCE", "current-version-readers", True, facts={"stores_examined": n})
 
 
+def r_upgrade_reloadable(model, rep):
+    """what the current-version loader refuses is refused for every version, or re-checked before a converted document is
+    written -- otherwise an old document that loads is written as a current-version file that does not load again.  Instance:
+    the identity-collision refusal of Images.add is gated on the header version"""
+    f = model.own_method("images.Images", "add")
+    cx = facts.fctx(model, f)
+    gated = [ev for ev in cx.events if ev.kind == "raise" and any(facts.gate_term_value(g[0], (1, 0)) is not None for g in ev.guards)
+             and any(T.contains(g[0], lambda x: x[0] == "call" and x[1] == ("global", "identify_image")) for g in ev.guards)]
+    if not gated:
+        inl = [ev for ev in cx.events if ev.kind == "raise" and any(facts.gate_term_value(g[0], (1, 0)) is not None for g in ev.guards)]
+        gated = [ev for ev in inl if any(e2.kind == "call" and e2.value[1] == ("global", "identify_image") for e2 in cx.events)]
+    cls = model.cls("images.Images")
+    rechecked = False
+    for name, (defcls, fn) in facts.validator_methods(cls).items():
+        vcx = facts.fctx(model, FuncRef(defcls.module, defcls, fn))
+        if any(ev.kind == "call" and ev.value[1] == ("global", "identify_image") for ev in vcx.events) \
+                and any(ev.kind == "raise" for ev in vcx.events):
+            rechecked = True
+    ok = not gated or rechecked
+    rep.ob("R-UPGRADE-RELOADABLE", "images.Images:identity-collisions-survive-upgrade", ok, site=cx.site(gated[0].lineno if gated else f.node),
+           msg="" if ok else "Images.add refuses identity collisions only for header versions >= 1.1 and nothing re-checks them before the "
+                             "document is written: a 1.0 document with two images that agree on all identity attributes (they differed "
+                             "only in what later became 'subvariant') and have different checksums loads, is written as a current-version "
+                             "file, and that file is rejected on reload",
+           facts={"gated_refusals": len(gated), "rechecked_by_validator": rechecked})
+
+
 @register("C05")
 def check_c05(model, rep, tier):
     rep.explanation = (
@@ -1184,6 +1211,7 @@ def check_c05(model, rep, tier):
     r_setcur(model, rep)
     r_legacy_map(model, rep)
     r_fix_path_identity(model, rep, relative_clause=True)
+    r_upgrade_reloadable(model, rep)
     from .sources import r_src_route
     from .regexes import r_legacy_compose
     r_src_route(model, rep)
